@@ -88,6 +88,11 @@ func vHarness_C02_comment() {
 	vAssert(derr == nil && out == "", "data interpolated into an HTML comment is not dropped")
 }
 
+// c02IsHTMLEscaper: the two run-time functions that HTML-escape plain strings.
+func c02IsHTMLEscaper(name string) bool {
+	return name == sanitizeHTMLFuncName || name == sanitizeRCDATAFuncName
+}
+
 type c02URLCtx struct{ elem, attr, rel string }
 
 var c02URLContexts = []c02URLCtx{{"a", "href", ""}, {"form", "action", ""}, {"img", "src", ""}, {"button", "formaction", ""}, {"link", "href", " icon "}, {"area", "href", ""}}
@@ -104,7 +109,7 @@ func vHarness_C02_url1() {
 	}
 	// the chain ends with the HTML escaper, whose output the browser decodes back to its
 	// input (C10): the decoded attribute value is what the chain yields before that last step
-	vAssert(len(chain) >= 2 && chain[len(chain)-1] == sanitizeHTMLFuncName, "a URL chain ends with the HTML escaper")
+	vAssert(len(chain) >= 2 && c02IsHTMLEscaper(chain[len(chain)-1]), "a URL chain ends with the HTML escaper")
 	out, derr := vApplyChain(chain[:len(chain)-1], d)
 	if derr != nil {
 		return
@@ -137,7 +142,7 @@ func vHarness_C02_url2() {
 	if err != nil {
 		return
 	}
-	if len(chain) < 2 || chain[len(chain)-1] != sanitizeHTMLFuncName {
+	if len(chain) < 2 || !c02IsHTMLEscaper(chain[len(chain)-1]) {
 		return
 	}
 	o1, e1 := vApplyChain(chain[:len(chain)-1], d1)
